@@ -29,6 +29,9 @@ type Healthy interface {
 	// WithArgs passes two additional arguments on to its hooks.
 	// :@H1@
 	WithArgs(src *Src, n int, v interface{}) *Dst
+	// WithOpt passes a pointer on to its hooks.
+	// :@H3@
+	WithOpt(src *Src, o *ext.Opts) *Dst
 	// Blank has an additional argument nobody named.
 	// :@H2@
 	Blank(src *Src, _ int) *Dst
